@@ -111,6 +111,15 @@ class RFFKernel(Kernel):
             )
         self.register_buffer("randn_weights", randn_weights)
 
+    def _load_from_state_dict(self, state_dict, prefix, *args, **kwargs):
+        # A kernel constructed without `num_dims` only creates its random features at the first evaluation. When a
+        # state dict that contains them is loaded into a kernel that has not been evaluated yet, create the buffer
+        # from the state dict (instead of rejecting it as an unexpected key)
+        key = prefix + "randn_weights"
+        if key in state_dict and not hasattr(self, "randn_weights"):
+            self._init_weights(randn_weights=state_dict[key].detach().clone())
+        super()._load_from_state_dict(state_dict, prefix, *args, **kwargs)
+
     def forward(self, x1: Tensor, x2: Tensor, diag: bool = False, last_dim_is_batch: bool = False, **kwargs) -> Tensor:
         if last_dim_is_batch:
             x1 = x1.transpose(-1, -2).unsqueeze(-1)
